@@ -159,6 +159,9 @@ func minimise(spec *RunSpec, class string, pred func(*RunSpec) bool, maxTried in
 					if o.Reader {
 						try(func(o *Op) { o.Reader = false })
 					}
+					if o.Reuse {
+						try(func(o *Op) { o.Reuse = false })
+					}
 				}
 			}
 		}
@@ -375,12 +378,16 @@ func reportViolation(spec *RunSpec, v *Violation, st *Stats, replayDir string, d
 			cv := executeSpec(c, nil)
 			return cv != nil && cv.Class == class
 		}
-		if class == "race" || class == "deadlock" {
+		if class == "race" || class == "deadlock" || class == "hang" {
 			pred = fresh
 		}
-		min := minimise(spec, class, pred, 400, 120*time.Second)
+		budget := 400
+		if class == "hang" {
+			budget = 10 // every hanging candidate costs hangAfter
+		}
+		min := minimise(spec, class, pred, budget, 240*time.Second)
 		ok := fresh(min)
-		if !ok && class != "race" && class != "deadlock" && fresh(spec) {
+		if !ok && class != "race" && class != "deadlock" && class != "hang" && fresh(spec) {
 			// shrinking inside this process was misled by state earlier runs left behind:
 			// shrink again with every candidate executed in a fresh process
 			min = minimise(spec, class, fresh, 200, 120*time.Second)
@@ -388,7 +395,7 @@ func reportViolation(spec *RunSpec, v *Violation, st *Stats, replayDir string, d
 		}
 		if ok {
 			final = min
-			if class == "race" || class == "deadlock" {
+			if class == "race" || class == "deadlock" || class == "hang" {
 				fv = &Violation{Class: class, Client: v.Client, Op: v.Op, Detail: v.Detail, Race: v.Race}
 			} else if mv := executeSpec(min.clone(), nil); mv != nil && mv.Class == class {
 				fv = mv
